@@ -1485,6 +1485,11 @@ impl Service {
             return;
         }
 
+        // Ignore sessions with ENRs that do not pass the configured table filter
+        if !(self.config.table_filter)(&enr) {
+            return;
+        }
+
         let node_id = enr.node_id();
 
         // We never update connection direction if a node already exists in the routing table as we
